@@ -148,6 +148,9 @@ class World:
         self.partitions_raw = []
         self.nic = {}
         self.eligible_default = None
+        self.netdev = None       # name -> 16 kernel columns ; None: no /proc/net/dev
+        self.disks = None        # list of (major, minor, name, [values], layout)
+        self.sysblock = set()    # names under /sys/block ('/' replaced by '!')
 
     # ----- process table -----
     def spawn(self, pid, **kw):
@@ -337,6 +340,27 @@ class World:
             L.append("softirq %d 1 2 3" % self.stat_extra["softirq"])
         return ("\n".join(L) + "\n").encode()
 
+    def render_netdev(self):
+        L = ["Inter-|   Receive                                                |  Transmit",
+             " face |bytes    packets errs drop fifo frame compressed multicast|bytes    packets errs drop fifo colls carrier compressed"]
+        for name, v in self.netdev.items():
+            L.append("%6s: %s" % (name, " ".join("%d" % x for x in v)))
+        return ("\n".join(L) + "\n").encode()
+
+    def render_diskstats(self):
+        """layout: 14 / 18 / 20 (name at col 3, 11/15/17 counters), 15 (2.4:
+        major minor #blocks name + 11 counters), 7 (2.6 partition: 4 counters)."""
+        L = []
+        for major, minor, name, vals, layout in self.disks:
+            if layout == 15:
+                L.append("%4d %7d %d %s %s" % (major, minor, vals[0], name,
+                                              " ".join(str(x) for x in vals[1:12])))
+            else:
+                n = {14: 11, 18: 15, 20: 17, 7: 4}[layout]
+                L.append("%4d %7d %s %s" % (major, minor, name,
+                                            " ".join(str(x) for x in vals[:n])))
+        return ("\n".join(L) + ("\n" if L else "")).encode()
+
     # ----- VFS -----
     def _proc_entry(self, ident):
         """Return (proc, tid|None) for /proc/<ident> or None."""
@@ -428,6 +452,15 @@ class World:
         path = posixpath.normpath(path)
         if path in self.dyn:
             return ("file", self.dyn[path]())
+        if path == self.PROCFS + "/net/dev" and self.netdev is not None:
+            return ("file", self.render_netdev())
+        if path == self.PROCFS + "/diskstats" and self.disks is not None:
+            return ("file", self.render_diskstats())
+        if path.startswith("/sys/block"):
+            if path == "/sys/block":
+                return ("dir", sorted(self.sysblock))
+            if path[len("/sys/block/"):] in self.sysblock:
+                return ("dir", [])
         if path in self.files:
             return ("file", self.files[path])
         if path in self.links:
